@@ -362,6 +362,7 @@ func (c *Ctx) resolveOrderTable(find *ssa.Function, blk *ssa.BasicBlock) ([]stri
 			if (kind == "path" || kind == "suffix") && !c.nameUnknownGuard(lits) {
 				c.pathFallbackOpen = true
 			}
+			kind = c.nameOwn(kind, lits)
 		})
 		kinds = append(kinds, kind)
 	}
@@ -526,6 +527,7 @@ func (c *Ctx) ruleImportResolution() {
 		if (kind == "path" || kind == "suffix") && !c.nameUnknownGuard(P.BlockGuards(b)) {
 			c.pathFallbackOpen = true
 		}
+		kind = c.nameOwn(kind, P.BlockGuards(b))
 		rets = append(rets, ret{kind, b})
 	})
 	defer func() {
@@ -538,16 +540,16 @@ func (c *Ctx) ruleImportResolution() {
 	// list of predicates (outer loop) and candidate over the entries (inner loop): the order is the order of the list
 	if len(rets) == 1 && rets[0].kind == "?" {
 		if kinds, ok := c.resolveOrderTable(find, rets[0].blk); ok {
-			want := []string{"alias", "name", "path", "suffix"}
-			c.check(strings.Join(kinds, ",") == strings.Join(want, ","), "RESOLVE-ORDER", "util.ImportMap.Find", P.Pos(find.Pos()), "explicit alias > declared package name > exact path > last path element (predicate table, in this order)", fmt.Sprintf("qualifier resolution order is not alias > package name > exact path > path suffix (predicate table gives %v)", kinds))
+			want := resolveOrderWant
+			c.check(strings.Join(kinds, ",") == strings.Join(want, ","), "RESOLVE-ORDER", "util.ImportMap.Find", P.Pos(find.Pos()), resolveOrderText+" (predicate table, in this order)", fmt.Sprintf("qualifier resolution order is not %s (predicate table gives %v): with two imports of the same declared name, one of them aliased, the order of the import specs decides", resolveOrderText, kinds))
 			return
 		}
 	}
 	// fused form: one pass that returns an alias match at once and keeps, per lower priority, the first match in a
 	// variable that is assigned only while it is still nil; after the pass the variables are returned in order
 	if kinds, ok := c.resolveOrderFused(find); ok {
-		want := []string{"alias", "name", "path", "suffix"}
-		c.check(strings.Join(kinds, ",") == strings.Join(want, ","), "RESOLVE-ORDER", "util.ImportMap.Find", P.Pos(find.Pos()), "explicit alias > declared package name > exact path > last path element (one pass, first match of each priority kept)", fmt.Sprintf("qualifier resolution order is not alias > package name > exact path > path suffix (single pass gives %v)", kinds))
+		want := resolveOrderWant
+		c.check(strings.Join(kinds, ",") == strings.Join(want, ","), "RESOLVE-ORDER", "util.ImportMap.Find", P.Pos(find.Pos()), resolveOrderText+" (one pass, first match of each priority kept)", fmt.Sprintf("qualifier resolution order is not %s (single pass gives %v): with two imports of the same declared name, one of them aliased, the order of the import specs decides", resolveOrderText, kinds))
 		return
 	}
 	// order by dominance of the loops: a return of kind k must be reachable only after the loops of earlier kinds finished
@@ -557,8 +559,8 @@ func (c *Ctx) ruleImportResolution() {
 		kinds = append(kinds, r.kind)
 	}
 	// establish order through loop-exit dominance
-	orderOK := len(rets) == 4
-	want := []string{"alias", "name", "path", "suffix"}
+	orderOK := len(rets) == len(resolveOrderWant)
+	want := resolveOrderWant
 	pos := map[string]*ssa.BasicBlock{}
 	for _, r := range rets {
 		pos[r.kind] = r.blk
@@ -586,7 +588,7 @@ func (c *Ctx) ruleImportResolution() {
 			orderOK = false // nested, not sequential
 		}
 	}
-	c.check(orderOK, "RESOLVE-ORDER", "util.ImportMap.Find", P.Pos(find.Pos()), "explicit alias > declared package name > exact path > last path element", fmt.Sprintf("qualifier resolution order is not alias > package name > exact path > path suffix (found %v)", kinds))
+	c.check(orderOK, "RESOLVE-ORDER", "util.ImportMap.Find", P.Pos(find.Pos()), resolveOrderText, fmt.Sprintf("qualifier resolution order is not %s (found %v): with two imports of the same declared name, one of them aliased, the order of the import specs decides (gofmt sorts them)", resolveOrderText, kinds))
 	// empty qualifier -> nil
 	emptyNil := false
 	allInstrs(find, func(b *ssa.BasicBlock, ins ssa.Instruction) {
@@ -1088,6 +1090,48 @@ func (c *Ctx) ruleTypeIdent() {
 			c.fail("TYPE-IDENT", "implements."+name+"#pointer-depth", P.Pos(fn.Pos()), "pointer depth is collapsed to one bit: *T and **T are treated as the same type (missed IMPL03)")
 		}
 	}
+	// (2t) the two converters are twins: a type on the interface side and the same type on the implementing side must
+	// come out with the same rendering, so whatever one of them does to a type (look through aliases, strip a
+	// pointer, render a fallback) the other does too - compared as the set of go/types operations each applies
+	if !usesGoTypes {
+		fi, fm := P.LookupFunc("implements", "convertTypesToInterfaceType"), P.LookupFunc("implements", "convertTypesToMethodType")
+		if fi != nil && fm != nil {
+			ops := func(fn *ssa.Function) map[string]bool {
+				out := map[string]bool{}
+				for _, f := range P.StaticClosure(fn) {
+					allInstrs(f, func(_ *ssa.BasicBlock, ins ssa.Instruction) {
+						switch x := ins.(type) {
+						case *ssa.TypeAssert:
+							if strings.HasPrefix(typeStr(x.AssertedType), "*go/types.") {
+								out["assert "+typeStr(x.AssertedType)] = true
+							}
+						case *ssa.Call:
+							n := P.calleeName(x.Common())
+							if strings.Contains(n, "go/types.") {
+								out["call "+n] = true
+							}
+						}
+					})
+				}
+				return out
+			}
+			oi, om := ops(fi), ops(fm)
+			var diff []string
+			for k := range oi {
+				if !om[k] {
+					diff = append(diff, k+" (interface side only)")
+				}
+			}
+			for k := range om {
+				if !oi[k] {
+					diff = append(diff, k+" (implementing side only)")
+				}
+			}
+			sort.Strings(diff)
+			c.check(len(diff) == 0, "TYPE-IDENT/TWINS", "implements.convertTypesToInterfaceType~convertTypesToMethodType", P.Pos(fm.Pos()), "both sides of the comparison treat a type the same way",
+				"the two signature converters do not apply the same go/types operations: "+strings.Join(diff, "; ")+" - the same type is rendered differently on the two sides of the comparison (false IMPL03 for a correct implementation)")
+		}
+	}
 	// (2c) methods are paired by name alone: an unexported method of another package is a different method
 	// (go/types: Id() = package path + name), `seal()` of package impl does not implement `seal()` of package api
 	if !usesGoTypes {
@@ -1382,7 +1426,7 @@ func (c *Ctx) resolveOrderFused(find *ssa.Function) ([]string, bool) {
 				kind = "suffix"
 			}
 		}
-		return kind
+		return c.nameOwn(kind, lits)
 	}
 	type post struct {
 		kind string
@@ -1575,3 +1619,26 @@ func dbgFused(n int) ([]string, bool) {
 	}
 	return nil, false
 }
+
+// nameOwn refines the kind of a qualifier match: a match by declared package name that is restricted to imports
+// without explicit alias (the ones the file binds under that name).
+func (c *Ctx) nameOwn(kind string, lits []Lit) string {
+	if kind != "name" {
+		return kind
+	}
+	P := c.P
+	for _, l := range lits {
+		if l.Kind != "eq" || !l.Pos {
+			continue
+		}
+		dx, dy := P.Desc(l.X), P.Desc(l.Y)
+		if (strings.HasSuffix(dx, "util.Import.Alias)") && dy == `const("")`) || (strings.HasSuffix(dy, "util.Import.Alias)") && dx == `const("")`) {
+			return "name-own"
+		}
+	}
+	return kind
+}
+
+var resolveOrderWant = []string{"alias", "name-own", "name", "path", "suffix"}
+
+const resolveOrderText = "explicit alias > declared name of an import without alias > declared name of any import > exact path > last path element"
